@@ -6,11 +6,14 @@ PROPERTY = "C13"
 LEVEL = "model_checking"
 BUDGET = {"quick": 240, "thorough": 2400}
 BOUNDS = {"quick": "12 base shapes (absolute / rooted / rootless / empty path, trailing slash, empty and escaped segments with symbolic hex digits, "
-                   "one free hole) x segment arguments of <= 2 free code points (no lone surrogates)",
+                   "one free hole) x segment arguments of <= 2 free code points (no lone surrogates); "
+                   "spellings also with multi-segment arguments a in a{/,a}^2, c in c{/,a}",
           "thorough": "segment arguments of <= 3 free code points (<= 2 on the bases that have free holes themselves)"}
 ASSUMPTIONS = ["segment arguments exclude lone surrogates (dropped by the quoter) ", "base paths and arguments longer than the bound are outside the claim",
                "the clause 'u / s has name s' is asserted for s without '/', not a dot segment and not empty, as the statement says",
-               "alternative spellings joinpath(a, b) / joinpath(a).joinpath(b) / u / 'a/b' are compared for non-empty a, b that do not start with '/'"]
+               "alternative spellings joinpath(a, b) / joinpath(a).joinpath(b) / u / 'a/b' are compared for non-empty a, b that do not start with '/'; "
+               "when a ends with '/', that slash is the separator (u / (a + b)), since joinpath documents that the trailing empty segment of a "
+               "non-final argument is not kept"]
 MANIFEST_ENTRY = {
     "text": "Bounded model checking of raw_parts/name/suffix(es)/parent, /, joinpath, with_name and with_suffix: the solver chooses segment text and "
             "escape digits; z3 decides on every path that raw_parts re-compose to raw_path, alternative spellings agree, with_name/with_suffix change "
@@ -73,19 +76,25 @@ def h_child(ctx, base_sk, seg_sk):
         ctx.check("parent-parts-are-base-parts", sym_eq(tuple(c.parent.raw_parts) if up else (), up) if up else True)
 
 
-def h_spellings(ctx, base_sk, n):
+def h_spellings(ctx, base_sk, n, a_sk=None, c_sk=None):
     P = ctx.P
     b = call(P.URL, U.text(ctx, base_sk, prefix="b"))
     if b[0] != "ok":
         ctx.observe("base", outcome(b))
         return
     u = b[1]
-    a = ctx.str("a", n, no_surrogates=True)
-    c = ctx.str("c", n, no_surrogates=True)
+    if a_sk is None:
+        a = ctx.str("a", n, no_surrogates=True)
+        c = ctx.str("c", n, no_surrogates=True)
+    else:
+        # multi-segment arguments: empty segments inside / at the end of a non-final argument
+        a = U.text(ctx, a_sk, prefix="a")
+        c = U.text(ctx, c_sk, prefix="c")
     ctx.assume(all_of([a[:1] != "/", c[:1] != "/"]), "segments do not start with '/'")
     r1 = call(u.joinpath, a, c)
     r2 = call(lambda: u.joinpath(a).joinpath(c))
-    r3 = call(lambda: u / (a + "/" + c))
+    # one trailing '/' of a non-final argument is the separator itself (documented: the trailing empty segment is not kept)
+    r3 = call(lambda: u / (a + c if a[-1:] == "/" else a + "/" + c))
     ctx.observe("spellings", (outcome(r1), outcome(r2), outcome(r3)))
     ctx.check("no-exception", r1[0] == "ok" and r2[0] == "ok" and r3[0] == "ok", (r1[1], r2[1], r3[1]))
     ctx.observe("paths", (r1[1].raw_path, r2[1].raw_path, r3[1].raw_path))
@@ -171,6 +180,8 @@ def families(tier):
             fams.append(Family("child/%s/%s" % (bn, sn), h_child, dict(base_sk=bsk, seg_sk=ssk)))
         if not (q and bn in heavy):
             fams.append(Family("spellings/%s" % bn, h_spellings, dict(base_sk=bsk, n=1)))
+            sl = ("in", "/a")
+            fams.append(Family("spellings-multiseg/%s" % bn, h_spellings, dict(base_sk=bsk, n=0, a_sk=["a", sl, sl] + ([] if q else [sl]), c_sk=["c", sl])))
         for n in ((1, 2) if q else (1, 2, 3)):
             if q and bn in heavy and n > 1:
                 continue
